@@ -326,7 +326,7 @@ PROPS = {
         theorems=["C11_no_lost_ring_wakeup", "C11_wake_is_on_its_way", "C11_awoken_bit_makes_next_poll_prompt",
                   "C11_pending_message_has_a_submitter", "C11_owed_poller_is_resumable_or_a_waker_is_running",
                   "C11_interrupted_enter_makes_poll_return", "C11_poll_return_clears_owed",
-                  "C11_eintr_retry_loses_wakeup_refuted"],
+                  "C11_eintr_retry_loses_wakeup_refuted", "C11_has_waiting_bit_loses_wakeup_refuted"],
         rule="one splitmix64 stream per case: one poller thread calling Ring::poll(None) 1..3 times and 1..3 waker "
              "threads each calling SubmissionQueue::wake 1..2 times, on a ring of the simulated kernel in one of the "
              "three ring modes (default, single issuer, kernel-thread flag) with random 32-bit start counters and a "
@@ -343,11 +343,21 @@ PROPS = {
              "scheduler resumes it at any later moment, and the wait ends with EINTR unless a completion is there by "
              "then or the call had submitted something); the poller segment that made the failing call (the poller "
              "entry before that poll's second POLLING_STATE point), resp. the 997 entry, is the model's event PI "
-             "instead of P; the executed interleaving (incl. the scheduler's report that the blocked poller can "
+             "instead of P; in a third of the cases whose queue is full at the start (prefill = entries) 1..3 "
+             "further futures are polled once before the race: they find the queue full and park their waker on "
+             "the ring's blocked-futures list (checked by the public behaviour: Pending, nothing queued, not "
+             "woken), their wakers only count, they are kept alive to the end and never polled again; the case "
+             "carries their number (wk_parked) and Shared::wake_blocked_futures then shows its further scheduling "
+             "points in the log (try_lock that finds the list, second LOCK to put the rest back), which the model "
+             "must replay; the observation ends with the number still parked (parked minus wake-ups counted); "
+             "the executed interleaving (incl. the scheduler's report that the blocked poller can "
              "never be resumed) is the case and the model replays it step by step; the oracle (independent of the "
              "model) follows 'a wake() was called since the last poll returned' along the log and fails when the "
              "scheduler reports the poller blocked for ever while that holds; tags count the interrupted enters per "
-             "kind, ring mode and whether a wake-up was owed at that moment; non-trivial = at least one "
+             "kind, ring mode and whether a wake-up was owed at that moment, and the cases with parked futures per "
+             "ring mode and number, how many of them were woken during the race, who took the second lock of "
+             "wake_blocked_futures (poller / a waker / both / nobody), whether the poller blocked and whether an "
+             "enter was interrupted in such a case; non-trivial = at least one "
              "preemption; distinct by the Coq case term",
         assumptions=["API-level reading of the property (DESIGN.md §6 C11): a wake() targets the Ring::poll in "
                      "progress (called, not yet returned) at the wake's fetch_or, else the next one to start; the "
@@ -370,7 +380,16 @@ PROPS = {
                      "after an add that failed on a full queue counts as inside its call; termination of the retry "
                      "loop of Submissions::wake is not claimed",
                      "entries queued by others are abstracted to a count at the front of the queue (they are "
-                     "consumed first and post no completion)"],
+                     "consumed first and post no completion)",
+                     "futures parked on the blocked-futures list are abstracted to their number; they are parked "
+                     "before the race, nobody parks during it and woken futures are not polled again (the list only "
+                     "shrinks, 'what was parked meanwhile' at the put-back of wake_blocked_futures is always nothing; "
+                     "the put-back arithmetic is modelled as written); the blocked-futures mutex is never held across "
+                     "a scheduling point, so its try_lock always succeeds and its second lock never spins (a replay "
+                     "in which it did would diverge); waking a future's waker has no scheduling point and no effect "
+                     "on the ring (the driver's wakers only count)",
+                     "C11_has_waiting_bit_loses_wakeup_refuted is about a variant of the step function (seeded "
+                     "change C11-h: a third bit HAS_WAITING in the state word), not about the code as it is"],
         trusted=["simulated kernel harness/src/simk.rs (blocking enter, MSG_RING, SQPOLL consumption, fail_next_enter, "
                  "BlockAction::Eintr)",
                  "baton scheduler harness/src/sched.rs (replays are exact: the model reports the scheduling point it "
@@ -378,6 +397,9 @@ PROPS = {
                  "due)",
                  "the driver's attribution of a consumed fail_next_enter to the poller segment before the poll's "
                  "second POLLING_STATE point (a wrong attribution shows as a replay mismatch)",
+                 "the driver's parking of futures before the race (a future that does not park is reported as an "
+                 "oracle failure of the setup; a wrong number shows as a replay mismatch) and util::WakeLog counting "
+                 "their wake-ups",
                  "a10 verif hooks A/B"],
     ),
     "C09": _ops_entry("C09", ["C09_restart_transparent", "C09_final_completion_ends_attempt",
